@@ -129,6 +129,14 @@ class Engine(Interp):
         if isinstance(recv, str) or (isinstance(recv, Sym) and recv.kind == 'str'):
             if name in ('format', 'split', 'replace', 'strip'):
                 return Sym('str', z3.Int(fresh_name('strres')))
+        if isinstance(recv, Sym) and recv.kind == 'dframe':
+            if name in ('infer_objects', 'fillna', 'copy'):
+                self.note_assumed(f'pandas.DataFrame.{name} (same rows and columns)')
+                f = Sym('dframe', z3.Int(fresh_name('frame')))
+                DFR, DFC = z3.Function('df_rows', I, I), z3.Function('df_cols', I, I)
+                self.st.assume(z3.And(DFR(f.t) == DFR(recv.t), DFC(f.t) == DFC(recv.t)))
+                return f
+            raise OutOfSubset(f"no assumed contract for DataFrame.{name}")
         if isinstance(recv, Sym) and recv.kind == 'any' and name in ('infer_objects', 'fillna', 'copy'):
             return recv         # assumed (pandas): same rows
         if isinstance(recv, Sym) and recv.kind == 'any':
@@ -332,6 +340,11 @@ class Engine(Interp):
                 fi = self.src.find_method(v.cls, '__len__')
                 if fi:
                     return self.call_function(fi, v, [], {}, node)
+            if isinstance(v, Sym) and v.kind == 'dframe':
+                self.note_assumed('len(pandas.DataFrame) = number of rows')
+                r_ = z3.Function('df_rows', I, I)(v.t)
+                self.st.assume(r_ >= 0)
+                return Sym('num', z3.ToReal(r_), isint=True)
             if isinstance(v, Opaque):
                 return Sym('num', z3.Real(fresh_name('len')), isint=True)
             if isinstance(v, Sym) and v.kind == 'ref' and v.cls == 'NpArr':
